@@ -149,7 +149,14 @@ func toIdentRef(bases []*meta.Identity, v interface{}) (val.IdentRef, error) {
 		x = x[colon+1:]
 	}
 
-	ref := meta.FindIdentity(bases, x)
+	// RFC7950 Sec 9.10.2: an identity derived from every base the type names; a base itself
+	// is not derived from itself
+	var ref *meta.Identity
+	for _, base := range bases {
+		if ref = meta.FindIdentity(base.DerivedDirect(), x); ref == nil {
+			return empty, fmt.Errorf("could not find identity ref for %T:'%s'", v, x)
+		}
+	}
 	if ref == nil {
 		return empty, fmt.Errorf("could not find identity ref for %T:'%s'", v, x)
 	}
